@@ -32,7 +32,7 @@ import sys
 assert sys.version_info >= (3, 0)  # Bomb out if not running Python3
 
 
-import operator, re, time, traceback, uuid, fnmatch, opentracing
+import copy, operator, re, time, traceback, uuid, fnmatch, opentracing
 
 from datetime import datetime, timezone, timedelta
 from aioprometheus import Counter, Histogram
@@ -434,7 +434,9 @@ class StateEngine(object):
         https://docs.aws.amazon.com/step-functions/latest/dg/input-output-contextobject.html
         """
         if "Input" not in execution:
-            execution["Input"] = data
+            # A copy: the states go on to modify data (ResultPath places
+            # results into it), the execution's input must not change with it.
+            execution["Input"] = copy.deepcopy(data)
 
         if "RoleArn" not in execution:
             """
